@@ -268,6 +268,24 @@ Definition rx_complete_stmt : Prop :=
     (length (r_q r) <= k)%nat ->
     In (run_msg f0 cs) (fp_dlv (snd (rx_loop gf k r))).
 Definition mkf (id:Z) (buf:list Z) : rxframe := {| r_id := id; r_len := 8; r_buf := buf |}.
+(* Run-level completeness: the same over whole histories.  For every history of operations (frames arriving, polls, ticks, sends, ...) on
+   a node that starts idle and is open at every step (ParseMessages on a node that is not open empties the driver queue), with no more
+   (PGN, source, destination) keys in the whole history than slots: the message of every run that arrives completely and in order -
+   whatever is interleaved, however its frames are spread over polls (a poll takes at most 20 frames, the rest stays queued), whatever the
+   clock does in between - is among the non-TP deliveries as soon as a poll has consumed its last frame.  No clause about the 100 ms slot
+   reuse is needed: under the key bound no search ever evicts. *)
+Definition stays_open (gf:rnode -> slot -> rnode * list event) (r0:rnode) (ops:list rop) : Prop :=
+  forall k, n_open (rn (fst (rrun gf r0 (firstn k ops)))) = 3.
+Definition rx_complete_run_stmt : Prop :=
+  forall gf r0 ops pre f0 mid rest cs (keys:list (Z * Z * Z)),
+    gf_ok gf -> rx_idle r0 -> stays_open gf r0 ops ->
+    Z.of_nat (length keys) <= nslots r0 -> (forall f, In f (frames_of ops) -> In (key_of f) keys) ->
+    frames_of ops = pre ++ f0 :: mid ++ rest ->
+    fast_first r0 f0 -> interleaved f0 cs mid -> seq_ok (fbyte f0 0) cs f0 -> run_complete f0 cs = true ->
+    (forall cs', (length cs' < length cs)%nat -> cs' = firstn (length cs') cs -> run_complete f0 cs' = false) ->
+    (length (r_q (fst (rrun gf r0 ops))) <= length rest)%nat ->              (* the polls have consumed the frames up to the end of the run *)
+    In (run_msg f0 cs) (fp_dlv (concat (snd (rrun gf r0 ops)))).
+
 (* the step statements bundled: a place at the first frame (slot of the same key, free slot, or oldest slot 100 ms old), sender discipline
    for the run's own key, and the run's slot younger than 100 ms whenever other traffic needs a place; they also cover tables that are
    over capacity and runs that span several polls *)
